@@ -138,6 +138,8 @@ inductive Op
   | bind (h : Nat)
   | udpSend (h : Nat)                  -- the new request gets the next id
   | work
+  | workNull                           -- uv_queue_work without work_cb: UV_EINVAL, nothing registered
+  | udpSendBad (h : Nat)               -- uv_udp_send without destination: UV_EDESTADDRREQ, nothing registered
   | cancel (r : Nat)
   | stopLoop
   | updateTime
@@ -638,6 +640,11 @@ def applyOp (s : State) (o : Op) : State × Ret :=
     | some (h, f) => if h.kind == .udp && !hClosing f then ok (udpSend s id) else illegal s
     | none => illegal s
   | .work => ok (workSubmit s)
+  | .workNull => ok s (-22)
+  | .udpSendBad id =>
+    match getHF s id with
+    | some (h, f) => if h.kind == .udp && !hClosing f then ok s (-89) else illegal s
+    | none => illegal s
   | .cancel r =>
     if s.reqs.contains ({ id := r, kind := .work } : Req) then let (s, rc) := workCancel s r; ok s rc else illegal s
   | .stopLoop => ok { s with stop := true }
